@@ -364,6 +364,14 @@ fn derived_for_item<T: Hash + Clone>(ctx: &mut Ctx, item: T, label: &str, rng: &
             format!("{} seed={} lg_k={} want row={} col={} coupons={}", desc(), seed, lg_k, row, col, s.num_coupons())
         });
         let img = s.serialize();
+        // the derivation is a function of the item and the seed only -- also for a sketch that was written and read
+        // back: offering the same item again must find its coupon already there
+        if let Ok(mut d) = CpcSketch::deserialize_with_seed(&img, seed) {
+            d.update(item.clone());
+            ctx.check(d.num_coupons() == 1 && d.verif_bit_matrix() == m, "CPC (row,col) != reference derivation", || {
+                format!("{} seed={} lg_k={}: after serialize/deserialize the same item maps to another coupon ({} coupons)", desc(), seed, lg_k, d.num_coupons())
+            });
+        }
         let sh = u16::from_le_bytes([img[6], img[7]]);
         ctx.check(sh == refhash::seed_hash(seed), "CPC image seed hash != reference", || {
             format!("seed={} image={} want={:04x}", seed, hex(&img[..8]), refhash::seed_hash(seed))
